@@ -23,6 +23,8 @@ RULE = (
     "an exception and nothing produced (no object, no header/source file); valid => all four accept and produce; Python and "
     "C++ entry points of the same kind give the same verdict. distinct = distinct (seed, fault set); non-trivial = every "
     "faulty case (the 8 valid seeds are the trivial ones)."
+    " Keys are also replaced by near-miss spellings (a fragment, another case, the name doubled, two names glued with a comma, a trailing "
+    "blank) for reading noise, sensor noise keys, process noise and calibration values."
 )
 ASSUMPTIONS = ["any exception type counts as a refusal", "deviation bound: 0 faults, 1 fault, 2 faults of different kinds"]
 
